@@ -178,6 +178,14 @@ def run_shard(mode, cfgs, sub_seed):
                 for given, note in ((props(root, d, w, a, ns), "no-yaml:same"), (props(root, 2, 2, "MD5", ns), "no-yaml:other")):
                     reopen_and_judge(res, FHS, root, ("no-yaml",), given, populated, cb, note)
                 rmtree(root)
+                # store data without a configuration file where only ONE of the three data directories exists
+                for sub in ("objects", "metadata", "refs"):
+                    pd = os.path.join(scratch, "partial")
+                    os.makedirs(os.path.join(pd, sub, "ab"))
+                    with open(os.path.join(pd, sub, "ab", "cdef"), "w") as fh:
+                        fh.write("leftover")
+                    reopen_and_judge(res, FHS, pd, ("no-yaml",), props(pd, d, w, a, ns), False, cb, "no-yaml:only-" + sub)
+                    rmtree(pd)
                 # an existing directory (empty, or holding unrelated files) and a refused open: nothing may change
                 for given_mod, note in ((dict(store_algorithm="sha256"), "existing-dir:unsupported-algo"),
                                         (dict(store_depth="x"), "existing-dir:bad-int"),
